@@ -1,1 +1,12 @@
-//! Runtime of the C16 check (see Cargo.toml).
+//! C16 -- runtime of the check "generated Rust types are wire-compatible with their schema".
+//!
+//! * `model`: abstract values of /verif/spec/SchemaTypes.tla -> concrete `aldrin_core::Value`s;
+//! * `rt`: the runner linked into the generated corpus crate (entry table of generated types);
+//! * `schema`: the TLC-emitted corpus -> `.aldrin` text, and the Rust entry table for `rt`.
+//!
+//! The binary `typegen-gen` runs the REAL parser and code generator of /repo on the printed schemas and
+//! writes the corpus crate (never committed) that cargo/rustc then compile.
+
+pub mod model;
+pub mod rt;
+pub mod schema;
